@@ -367,7 +367,8 @@ theorem C14_finish_numeric (o : Opts) (m : Mach) (cr : CharRefSt) (v : Nat)
     (hbig : (decide (cr.num > 0x10FFFF) || cr.numTooBig) = true ↔ v > 0x10FFFF)
     (hval : v ≤ 0x10FFFF → cr.num = v) :
     (finishNumeric o m cr).2 = .ok (Char.ofNat (specNumeric v)) := by
-  unfold finishNumeric specNumeric
+  unfold finishNumeric numericValue specNumeric
+  dsimp only
   by_cases h1 : v > 0x10FFFF
   · have hb := hbig.mpr h1
     have hv0 : v ≠ 0 := by omega
